@@ -13,6 +13,7 @@ Record otables : Type := {
   t_lower : list (str * str);
   t_upper : list (str * str);
   t_int : list (str * outcome Z);
+  t_intb : list (list Z * outcome Z);
   t_float : list (str * outcome spec_float);
   t_uuid : list (str * outcome value);
   t_iso : list (value * outcome value);
@@ -32,6 +33,7 @@ Definition oracles_of (T : otables) : oracles := {|
   o_lower := fun s => assoc zlist_eqb s (t_lower T) [-7];
   o_upper := fun s => assoc zlist_eqb s (t_upper T) [-7];
   o_int_of_str := fun s => assoc zlist_eqb s (t_int T) (Raise MissingC);
+  o_int_of_bytes := fun s => assoc zlist_eqb s (t_intb T) (Raise MissingC);
   o_float_of_str := fun s => assoc zlist_eqb s (t_float T) (Raise MissingC);
   o_uuid := fun s => assoc zlist_eqb s (t_uuid T) (Raise MissingC);
   o_fromiso := fun v => assoc value_eqb v (t_iso T) (Raise MissingC);
@@ -47,13 +49,26 @@ Definition enc_float (f : spec_float) : list Z :=
   | S754_finite s m e => [3; if s then 1 else 0; Z.pos m; e]
   end.
 
+(* integers leave Coq as base-2^60 limbs (least significant first): printing a 4000-digit Z in decimal
+   costs a minute, printing its 200 limbs nothing *)
+Definition limb_mask : Z := 1152921504606846975.      (* 2^60 - 1 *)
+Fixpoint limbs (fuel : nat) (a : Z) : list Z :=
+  match fuel with
+  | O => [-1]                                        (* out of fuel: never a valid limb *)
+  | S f => if a =? 0 then [] else Z.land a limb_mask :: limbs f (Z.shiftr a 60)
+  end.
+Definition enc_Z (z : Z) : list Z :=
+  let a := Z.abs z in
+  let l := limbs (S (S (Z.to_nat (Z.log2 a / 60)))) a in
+  (if z <? 0 then 1 else 0) :: zlen l :: l.
+
 Fixpoint enc_value (v : value) : list Z :=
   let fix go (l : list value) : list Z :=
     match l with [] => [] | x :: l' => enc_value x ++ go l' end in
   match v with
   | VNone => [0]
   | VBool b => [1; if b then 1 else 0]
-  | VInt z => [2; z]
+  | VInt z => 2 :: enc_Z z
   | VFloat f => 3 :: enc_float f
   | VStr s => 4 :: zlen s :: s
   | VBytes s => 5 :: zlen s :: s
@@ -84,27 +99,29 @@ Definition with_len (l : list Z) : list Z := zlen l :: l.
 (* [model outcome] [spec verdict] [gaps], each with its length in front *)
 Definition eval_validate (T : otables) (w : validator) (v : value) : list Z :=
   let O := oracles_of T in
-  with_len (enc_outcome (validate O w v)) ++ with_len (enc_verdict (spec O w v)) ++ with_len (gaps O w v)
-  ++ with_len (enc_outcome (validate_param O w v)).
+  with_len (enc_outcome (validate gen_shapes O w v)) ++ with_len (enc_verdict (spec O w v)) ++ with_len (gaps O w v)
+  ++ with_len (enc_outcome (validate_param gen_shapes O w v)).
 
 Definition eval_convert (T : otables) (v : value) (t : ttype) : list Z :=
   let O := oracles_of T in
-  with_len (enc_outcome (convert_value O v t)) ++ with_len (enc_outcome (spec_convert O v t)).
+  with_len (enc_outcome (convert_value gen_shapes O v t)) ++ with_len (enc_outcome (spec_convert O v t)).
 
 (* primitives, compared one by one with CPython *)
 Definition enc_opt_Z (o : option Z) : list Z := match o with Some z => [1; z] | None => [0] end.
 Definition eval_show (z : Z) : list Z := show_Z z.
-Definition eval_parse (s : str) : list Z := enc_opt_Z (parse_dec s).
+Definition eval_parse (s : str) : list Z := match parse_dec s with Some z => 1 :: enc_Z z | None => [0] end.
 Definition eval_strip (s : str) : list Z := py_strip s.
 Definition eval_float_of_int (z : Z) : list Z :=
   match float_of_Z z with Ok f => 0 :: enc_float f | Raise e => 1 :: enc_exn e end.
 Definition eval_int_of_float (f : spec_float) : list Z :=
-  match int_of_float f with Ok z => [0; z] | Raise e => 1 :: enc_exn e end.
+  match int_of_float f with Ok z => 0 :: enc_Z z | Raise e => 1 :: enc_exn e end.
 Definition eval_cmp (a b : value) : list Z :=
   map (fun op => match py_cmp op a b with Ok true => 1 | Ok false => 0 | Raise _ => 2 end) [CLt; CLe; CGt; CGe; CEq; CNe].
 Definition eval_ws : list Z := flat_map (fun r => [fst r; snd r]) ws_ranges.
+Definition eval_num_ws : list Z := flat_map (fun r => [fst r; snd r]) num_ws_ranges.
+Definition eval_int_str (s : str) : list Z := match parse_dec (num_strip s) with Some z => 1 :: enc_Z z | None => [0] end.
 Definition eval_regex (m : matchmode) (r : re) (s : str) : list Z := [if re_test m r s then 1 else 0].
 Definition eval_email (s : str) : list Z :=
-  [if re_fullmatch Gen.Validators.regex_email s then 1 else 0; if email_predb s then 1 else 0].
+  [if re_test (s_email_mode gen_shapes) (s_regex_email gen_shapes) s then 1 else 0; if email_predb s then 1 else 0].
 Definition eval_ascii_case (s : str) : list Z :=
   (if is_ascii s then 1 else 0) :: zlen s :: map lower_c s ++ map upper_c s.
